@@ -31,7 +31,8 @@ Proof.
   generalize (stat_mod v2) as m2. intros m2. cbn in *.
   destruct e; cbn in *.
   - destruct (find va a); [|discriminate]. destruct (f_create fx); inversion Hr; subst; eexists; (split; [reflexivity|]); unfold veq; cbn; intuition.
-  - inversion Hr; subst. destruct (stake_equal newv oldv); eexists; (split; [reflexivity|]); unfold veq; cbn; intuition.
+  - inversion Hr; subst. destruct (stake_equal match find va a with Some x => x | None => newv end oldv);
+      eexists; (split; [reflexivity|]); unfold veq; cbn; intuition.
   - inversion Hr; subst. destruct (f_journal fx); eexists; (split; [reflexivity|]); unfold veq; cbn; intuition.
   - destruct q; [inversion Hr; subst; eexists; split; [reflexivity|]; unfold veq; cbn; intuition|].
     destruct (q_delete_last (w :: q) r); [|discriminate]. inversion Hr; subst. eexists; split; [reflexivity|]. unfold veq; cbn; intuition.
@@ -283,9 +284,9 @@ Proof.
     { rewrite Ha, (add_mem_id _ _ Hi). now apply add_mem_id. }
     unfold update_validator.
     destruct (stake_equal nv ov) eqn:Hse.
-    + eapply vext_one with (e := EValUpdate a ov nv); [reflexivity | cbn; rewrite Hse; reflexivity |].
+    + eapply vext_one with (e := EValUpdate a ov nv); [reflexivity | cbn; rewrite find_set_same, Hse; reflexivity |].
       unfold veq; cbn. rewrite Hset, Hidx, d_dec_inc, journal_eta. repeat split; reflexivity.
-    + eapply vext_one with (e := EValUpdate a ov nv); [reflexivity | cbn; rewrite Hse; reflexivity |].
+    + eapply vext_one with (e := EValUpdate a ov nv); [reflexivity | cbn; rewrite find_set_same, Hse; reflexivity |].
       unfold veq; cbn. rewrite Hset, Hidx, d_dec_inc, journal_eta.
       rewrite (stat_sub_add nv) by (apply stat_sub_ok; exact Hs).
       rewrite (stat_add_sub ov _ Hs Hc). repeat split; reflexivity.
